@@ -449,7 +449,8 @@ def replay(pid, path):
 
 def setup():
     os.makedirs(WORK, exist_ok=True)
-    rc, out, dt = sh(["lake", "build", "Noodles", "driver"], cwd=LEAN, timeout=6000)
+    mods = [f"Noodles.Props.{p}" for p in sorted(REG) if os.path.exists(os.path.join(LEAN, "Noodles", "Props", f"{p}.lean"))]
+    rc, out, dt = sh(["lake", "build", "driver"] + mods, cwd=LEAN, timeout=6000)
     print(f"lake build: rc={rc} {dt:.0f}s")
     if rc != 0:
         print(out[-3000:])
